@@ -38,6 +38,9 @@ ILL = ['contains(5)', 'amount > "x"', 'next(r for r in rows)', 'len(amount) > 1'
        'sum(r.item for r in rows) > 0', 'all(x.y for x in description)', 'exists(amount > "x")', 'month.lower() == "x"']
 LAZY_VALUE = ['(x for x in amount)', '(c for c in 5)', '(r.nope for r in rows)', '(r.item for r in w0)', '(x.y for x in description)',
               '(r for r in rows if r.amount > "s")', '(1 / x for x in amount)']
+BIG = '1' + '0' * 320
+OVERFLOW = [f'amount / {BIG} > 0', 'round(amount * 1e308 * 1e308) > 0', f'amount * {BIG} > 1', f'amount + {BIG} > 1.5',
+            'round(1e308 * 10) == 1', f'abs(amount) % {BIG} == 0.5']
 ILL_VALUE = ['field.nope', 'extract("(")', 'description + 1', 'next(r for r in rows)', 'unknown_var', 'amount.upper()',
              'rows[9].item', 'split(description, 1, 2)', 'regex_replace(description, "(", "")', 'len(5)']
 GOOD_VALUE = ['extract("#(\\\\d+)")', 'source', 'uppercase(source)', 'split(description, " ", 0)', '"static"', 'field.memo']
@@ -246,7 +249,7 @@ def main(tier):
     n_e, n_v, n_r = (250, 150, 40) if tier == 'quick' else (6000, 3000, 600)
     cases = []
     # every ill-typed condition alone in front of a good rule, in every position kind (systematic part)
-    for ill in ILL:
+    for ill in ILL + OVERFLOW:
         cases.append({'kind': 'engine', 'modes': ['first_match', 'most_specific'], 'variables': [], 'transforms': [],
                       'data_sources': {'rows': [{'item': 'Book', 'amount': 12.5}], 'empty': []},
                       'rules': [{'name': 'Bad', 'match': ill, 'category': 'X', 'tags': ['bad']},
@@ -254,7 +257,7 @@ def main(tier):
                                  'tags': ['ok', '{' + rnd.choice(ILL_VALUE) + '}'], 'lets': [('w', rnd.choice(ILL_VALUE))],
                                  'fields': [('f', rnd.choice(ILL_VALUE))]}],
                       'txns': [{'description': 'NETFLIX.COM #1234', 'amount': -15.99, 'date': '2025-02-28', 'source': 'Amex', 'field': None}]})
-    for ill in VILL:
+    for ill in VILL + [f'total / {BIG} > 0', 'round(total * 1e308 * 1e308) > 0']:
         cases.append({'kind': 'views', 'variables': [], 'views': [{'name': 'Bad', 'filter': ill}, {'name': 'Good', 'filter': 'total > 1'}],
                       'merchants': [{'name': 'M0', 'category': 'Food', 'subcategory': 'Cafe', 'tags': ['coffee'],
                                      'payments': [{'amount': 25.5, 'date': '2025-01-03'}, {'amount': 8.0, 'date': '2025-02-03'}]}]})
@@ -280,7 +283,11 @@ def main(tier):
         c['workdir'] = wd
         c['txns'] = [{'description': rnd.choice(DESCS), 'amount': rnd.choice([-5.0, 12.5, 150.0, 2500.0]),
                       'date': rnd.choice(['2025-02-28', '2025-12-31'])} for _ in range(4)]
-        c['transforms'] = []
+        # field transforms go through apply_transforms (normalize_merchant path): a transform that evaluates fine but targets a
+        # custom field on a source WITHOUT captures (field is None), an ill-typed one, an overflowing one
+        c['transforms'] = rnd.choice([[], [('field.memo', 'uppercase(description)')], [('field.description', 'description + 1')],
+                                      [('field.kind', 'lowercase(source)'), ('field.description', 'regex_replace(field.description, "^SQ \\*", "")')],
+                                      [('field.description', f'amount / {BIG}')], [('field.x', 'field.nope')]])
         # rules whose condition is ill-typed for EVERY transaction: those using a constant ill-typed match
         c['all_failing'] = [i for i, r in enumerate(c['rules']) if r['match'] in ILL and r['match'] not in
                             ('field.nope == "a"',)]
